@@ -141,7 +141,8 @@ CLAIM = {
     "text": "Edge-dominance rule on the binder's CTE reference path: inlining is only sound under a volatility or single-reference guard. "
             "Whether a CTE is evaluated once is visible in this code shape for all queries; the correctness of subquery decorrelation is "
             "value-level plan rewriting and is not decided in general; one positional-agreement clause of it is (the index a decorrelated "
-            "aggregate adds to its grouping sets is the index its column map records). Plus the sharing discipline of materializations: filters above one MaterializationScan enter the shared plan only under a scan-count test, and once anything reads the scan count every path that builds a MaterializationScan increments it. Plus: the functions that write the LeftMark join's verdict column can write NULL (IN over a subquery is three-valued) - two known findings.",
+            "aggregate adds to its grouping sets is the index its column map records). Plus the sharing discipline of materializations: filters above one MaterializationScan enter the shared plan only under a scan-count test, and once anything reads the scan count every path that builds a MaterializationScan increments it. Plus: the functions that write the LeftMark join's verdict column can write NULL (IN over a subquery is three-valued) - two known findings."
+            " Plus three binding/decorrelation clauses: EXISTSCNT (the COUNT behind an uncorrelated EXISTS counts rows), NULLSAFE (outer rows are joined back to their decorrelated result with IS NOT DISTINCT FROM), ANYCAST (the left side of ANY/IN is not cast to the subquery's type by the binder).",
     "note": "trusted: rustc MIR; guard recognised by callee / field names matching volatile|ref_count|single_use (documented in rules/c09.py)",
     "technique": "static analysis: MIR edge-dominance guard rule (rustc_private driver)",
 }
